@@ -2,6 +2,7 @@
 op sequence, applies it to the real object, and records the public observation vector after
 every call.  TLC (Trace_Msg over AbsMessage.tla) judges the log."""
 import copy
+import io
 import pickle
 
 import betterproto
@@ -16,11 +17,27 @@ def members(schema, ty):
     return [f for f in schema["types"][ty] if f["card"] == "oneof"]
 
 
-def observe(schema, m, ty, R=None):
-    o = {"val": gen.fresh(schema, ty), "wire": [], "raises": {"_": False}, "dictkeys": [], "err": "", "refval": None}
+def observe(schema, m, ty, R=None, C=None):
+    o = {"val": gen.fresh(schema, ty), "wire": [], "raises": {"_": False}, "dictkeys": [], "err": "", "refval": None, "len": -1, "dump": [], "delim": [], "reread": [], "reread_res": "skipped"}
     try:
         o["val"] = dyn.obs_bp(schema, m, ty)
+        o["len"] = len(m)                   # (before bytes(): a size computed / cached earlier must still be right)
         o["wire"] = list(bytes(m))
+        s = io.BytesIO()
+        m.dump(s)
+        o["dump"] = list(s.getvalue())
+        s = io.BytesIO()
+        m.dump(s, betterproto.SIZE_DELIMITED)
+        o["delim"] = list(s.getvalue())
+        if C is not None:            # C10 along the history: the frame written now, twice, is read back by two loads that consume exactly the stream
+            rs = io.BytesIO(bytes(o["delim"]) * 2)
+            try:
+                r1 = C[ty]().load(rs, betterproto.SIZE_DELIMITED)
+                r2 = C[ty]().load(rs, betterproto.SIZE_DELIMITED)
+                o["reread"] = [dyn.obs_bp(schema, r1, ty), dyn.obs_bp(schema, r2, ty)]
+                o["reread_res"] = "ok" if rs.tell() == 2 * len(o["delim"]) else "stopped_at_%d_of_%d" % (rs.tell(), 2 * len(o["delim"]))
+            except Exception as ex:
+                o["reread_res"] = "raises_" + type(ex).__name__
         if R is not None:            # what the reference implementation reports (HasField / WhichOneof / values) for the same bytes
             r = R[ty]()
             r.ParseFromString(bytes(o["wire"]))
@@ -84,10 +101,32 @@ def gen_history(schema, ty, rnd, n, emphasis=None):
                 continue
             kw.append([f["name"], rand_value(schema, f, rnd, allow_unset=False)])
     ops.append({"op": "new", "kw": kw})
+    if emphasis == "inplace" and rnd.random() < .6:
+        ops[0] = {"op": "new", "kw": []}          # a fresh message that is only ever filled in place
+    reps = [f for f in fields if f["card"] == "repeated"]
+    maps = [f for f in fields if f["card"] == "map"]
     for _ in range(n):
         c = rnd.random()
         w_set = .35 if emphasis != "observers" else .15
-        if c < w_set:
+        if emphasis == "inplace" and c < .45 and (reps or maps or msgf):
+            # in-place mutation of a container / sub-message obtained by reading the attribute (never passes through __setattr__ of m)
+            pick = rnd.choice(["append"] * bool(reps) + ["mapset"] * bool(maps) + ["setin"] * bool(msgf))
+            if pick == "append":
+                f = rnd.choice(reps)
+                v = rnd.choice(gen.single_domain(schema, f, f["kind"]))
+                ops.append({"op": "append", "f": f["name"], "v": with_fresh(v)})
+            elif pick == "mapset":
+                f = rnd.choice(maps)
+                vd = gen.single_domain(schema, f, f["vkind"]) if f["vkind"] != "message" else gen.inner_domain()
+                ops.append({"op": "mapset", "f": f["name"], "key": rnd.choice(gen.scalar_domain(f["kkind"])[:6]), "v": with_fresh(rnd.choice(vd))})
+            else:
+                f = rnd.choice(msgf)
+                g = rnd.choice(schema["types"][f["msg"]])
+                if g["card"] == "implicit" and g["kind"] not in ("message", "map", "wrap", "timestamp", "duration"):
+                    ops.append({"op": "setin", "f": f["name"], "x": g["name"], "v": rnd.choice(gen.scalar_domain(g["kind"]))})
+        elif emphasis == "inplace" and c < .6:
+            ops.append({"op": rnd.choice(["len", "bytes", "observe"])})
+        elif c < w_set:
             f = rnd.choice(mem) if (mem and (emphasis == "oneof" or rnd.random() < .4)) else rnd.choice(fields)
             ops.append({"op": "set", "f": f["name"], "v": rand_value(schema, f, rnd)})
         elif c < w_set + .08 and msgf:
@@ -191,12 +230,12 @@ def kw_to_dict(schema, C, ty, kw):
     return m.to_dict(casing=betterproto.Casing.SNAKE)
 
 
-def run_history(schema, C, ty, ops, R=None):
+def run_history(schema, C, ty, ops, R=None, reread=False):
     log = []
     m = None
     byname = {f["name"]: f for f in schema["types"][ty]}
     for op in ops:
-        e = {"op": op["op"], "f": op.get("f", ""), "x": op.get("x", ""), "v": op.get("v", {"k": "unset"}), "kw": op.get("kw", []), "b": [],
+        e = {"op": op["op"], "f": op.get("f", ""), "x": op.get("x", ""), "v": op.get("v", {"k": "unset"}), "key": op.get("key", {"k": "unset"}), "kw": op.get("kw", []), "b": [],
              "res": "ok", "eq": True, "samebytes": True}
         try:
             k = op["op"]
@@ -207,6 +246,15 @@ def run_history(schema, C, ty, ops, R=None):
             elif k == "setin":
                 g = next(x for x in schema["types"][byname[op["f"]]["msg"]] if x["name"] == op["x"])
                 setattr(getattr(m, op["f"]), op["x"], dyn.conc_bp_single(schema, C, g, g["kind"], op["v"]))
+            elif k == "append":
+                f = byname[op["f"]]
+                getattr(m, op["f"]).append(C[f["msg"]]() if op["v"].get("fresh") else dyn.conc_bp_single(schema, C, f, f["kind"], op["v"]))
+            elif k == "mapset":
+                f = byname[op["f"]]
+                kf = dict(f, kind=f["kkind"])
+                vf = dict(f, kind=f["vkind"])
+                getattr(m, op["f"])[dyn.conc_bp_single(schema, C, kf, f["kkind"], op["key"])] = \
+                    C[f["msg"]]() if op["v"].get("fresh") else dyn.conc_bp_single(schema, C, vf, f["vkind"], op["v"])
             elif k == "get":
                 getattr(m, op["f"])
             elif k == "getin":
@@ -258,7 +306,7 @@ def run_history(schema, C, ty, ops, R=None):
             e["res"] = "AttributeError"
         except Exception as ex:
             e["res"] = type(ex).__name__ + ":" + str(ex)[:60]
-        e["obs"] = observe(schema, m, ty, R)
+        e["obs"] = observe(schema, m, ty, R, C if reread else None)
         log.append(e)
         if e["res"] not in ("ok", "AttributeError"):
             break
@@ -271,25 +319,26 @@ def _in_dict(d, name):
 
 def history_event(args):
     from . import msgev
-    ty, ops, withref = args
+    ty, ops, withref = args[:3]
+    reread = len(args) > 3 and args[3]
     w = msgev.world()
-    return {"ty": ty, "log": run_history(w["schema"], w["bp"], ty, ops, msgev.ref_classes() if withref else None), "case": {"ty": ty, "ops": ops}}
+    return {"ty": ty, "log": run_history(w["schema"], w["bp"], ty, ops, msgev.ref_classes() if withref else None, reread), "case": {"ty": ty, "ops": ops}}
 
 
-def run_histories(ctx, types, count, length, emphasis, withref=False, extra=()):
+def run_histories(ctx, types, count, length, emphasis, withref=False, extra=(), judge_len=False):
     from . import msgev
     w = msgev.world()
     rnd = ctx.rnd
     cases = []
     for _ in range(count):
         ty = rnd.choice(types)
-        cases.append((ty, gen_history(w["schema"], ty, rnd, rnd.randint(2, length), emphasis), withref))
-    cases += [(ty, ops, withref) for ty, ops in extra]
+        cases.append((ty, gen_history(w["schema"], ty, rnd, rnd.randint(2, length), emphasis), withref, bool(judge_len)))
+    cases += [(ty, ops, withref, bool(judge_len)) for ty, ops in extra]
     events = ctx.pmap(history_event, cases)
     for c in cases:
         ctx.count_case((c[0], repr(c[1])), len(c[1]) > 1)
     ctx.sample({"type": cases[0][0], "ops": cases[0][1][:6]})
-    ctx.validate("Trace_Msg", events, header={"schema": w["schema"]}, shard=300, weight=lambda e: len(e["log"]))
+    ctx.validate("Trace_Msg", events, header={"schema": w["schema"], "judge_len": bool(judge_len)}, shard=300, weight=lambda e: len(e["log"]))
     ctx.notes.setdefault("history_steps", 0)
     ctx.notes["history_steps"] += sum(len(e["log"]) for e in events)
     return events
